@@ -160,6 +160,7 @@ class Array(
                     res.append(getattr(temp_st, getattr(item, "_name")))
                 res += value[len(self.items) :]
                 value = res
+            verify_type_and_uniqueness(list, value, self._name, self.uniqueItems)
 
         super().__set__(instance, _ListStruct(self, instance, value, self._name))
 
